@@ -21,6 +21,7 @@ from fractions import Fraction
 
 from ..common import AnalysisError, norm_src, unparse
 from ..exact import const_value
+from .. import symdiff
 from ..tpoly import P, asP
 
 LEVEL = "other"
@@ -39,8 +40,10 @@ class SolEval:
         self.analytical = analytical
         self.tree = sources.module(rel)
         self.fns = {n.name: n for n in self.tree.body if isinstance(n, ast.FunctionDef)}
-        self.consts = {n.targets[0].id for n in self.tree.body if isinstance(n, ast.Assign)
-                       and isinstance(n.targets[0], ast.Name)}
+        self.consts = {n.targets[0].id: n.value for n in self.tree.body
+                       if isinstance(n, ast.Assign) and isinstance(n.targets[0], ast.Name)}
+        self._cval = {}
+        self.overrides = {}      # function name -> value returned instead of interpreting it
         self.imports = {}
         for n in self.tree.body:
             if isinstance(n, ast.ImportFrom) and n.level == 1 and n.module is None:
@@ -94,6 +97,20 @@ class SolEval:
                 cur = env[st.target.id]
                 env[st.target.id] = self.binop(st.op, cur, self.ev(st.value, env))
                 continue
+            if isinstance(st, ast.AugAssign) and isinstance(st.target, ast.Subscript) \
+                    and isinstance(st.target.value, ast.Name):
+                base = env[st.target.value.id]
+                sl = st.target.slice
+                idxs = [int(const_value(i)) for i in (sl.elts if isinstance(sl, ast.Tuple)
+                                                     else [sl])]
+                import copy
+                base = copy.deepcopy(base) if isinstance(base, list) else base
+                cur = base
+                for i in idxs[:-1]:
+                    cur = cur[i]
+                cur[idxs[-1]] = self.binop(st.op, cur[idxs[-1]], self.ev(st.value, env))
+                env[st.target.value.id] = base
+                continue
             if isinstance(st, ast.If):
                 c = self.ev(st.test, env)
                 if not isinstance(c, bool):
@@ -118,7 +135,15 @@ class SolEval:
             if node.id in LIBS or node.id in self.imports:
                 return ("lib", node.id)
             if node.id in self.consts:
-                return P.atom("const:" + node.id)
+                if node.id not in self._cval:
+                    self._cval[node.id] = P.atom("const:" + node.id)   # recursion guard
+                    try:
+                        v = self.ev(self.consts[node.id], {})
+                        if isinstance(v, P):
+                            self._cval[node.id] = v
+                    except Unsup:
+                        pass
+                return self._cval[node.id]
             raise Unsup("name " + node.id)
         if isinstance(node, (ast.Tuple, ast.List)):
             return [self.ev(e, env) for e in node.elts]
@@ -137,6 +162,9 @@ class SolEval:
                 if node.attr == "pi":
                     return P.atom("pi")
                 if base[1] in self.imports:
+                    other = self.sibling(base[1])
+                    if node.attr in other.consts:
+                        return other.ev(ast.Name(id=node.attr, ctx=ast.Load()), {})
                     return P.atom(f"const:{base[1]}.{node.attr}")
                 return ("libfn", node.attr)
             raise Unsup("attribute " + unparse(node))
@@ -155,6 +183,15 @@ class SolEval:
         if isinstance(node, ast.Compare):
             raise Unsup("comparison")
         raise Unsup("expression " + type(node).__name__)
+
+    def sibling(self, lib):
+        key = "_sib_" + lib
+        if not hasattr(self, key):
+            o = SolEval(self.S, f"{SOL}/{self.imports[lib]}.py", self.analytical)
+            o.overrides = {k[len(lib) + 1:]: v for k, v in self.overrides.items()
+                           if k.startswith(lib + ".")}
+            setattr(self, key, o)
+        return getattr(self, key)
 
     def neg(self, v):
         if isinstance(v, list):
@@ -180,9 +217,7 @@ class SolEval:
         if isinstance(op, ast.Div):
             return a * b.pow(-1)
         if isinstance(op, ast.Pow):
-            if b.is_const():
-                return a.pow(b.cval())
-            return P.atom(f"pow({a!r},{b!r})")
+            return symdiff.power(a, b)
         raise Unsup("operator")
 
     def fn_atom(self, name, args):
@@ -191,18 +226,15 @@ class SolEval:
                     and len(args) == 1:
                 return [self.fn_atom(name, [x]) for x in args[0]]
             raise Unsup("function of an array")
-        args = [asP(a) for a in args]
-        if name == "sqrt":
-            return args[0].pow(Fraction(1, 2))
-        if all(a.is_const() for a in args) and name in ("sin", "sinh") and args[0].is_zero():
-            return P()
-        return P.atom(f"{name}(" + ",".join(repr(a) for a in args) + ")")
+        return symdiff.fn_atom(name, args)
 
     def ev_call(self, node, env):
         f = node.func
         fsrc = unparse(f)
         args = [self.ev(a, env) for a in node.args]
         kwargs = {k.arg: self.ev(k.value, env) for k in node.keywords if k.arg}
+        if isinstance(f, ast.Name) and f.id in self.overrides:
+            return self.overrides[f.id]
         if isinstance(f, ast.Name) and f.id in self.fns:
             r = self.call(f.id, args, kwargs)
             return r[1] if r else None
@@ -212,13 +244,11 @@ class SolEval:
                 lib, name = base[1], f.attr
                 if lib in self.imports:
                     # function of a sibling solution module
-                    other = SolEval(self.S, f"{SOL}/{self.imports[lib]}.py", self.analytical)
+                    other = self.sibling(lib)
+                    if name in other.overrides:
+                        return other.overrides[name]
                     if name not in other.fns:
                         raise Unsup("sibling function " + fsrc)
-                    if "analytical" in [a.arg for a in other.fns[name].args.args] \
-                            and "analytical" not in kwargs and len(args) < len(
-                                other.fns[name].args.args):
-                        pass
                     r = other.call(name, args, kwargs)
                     return r[1] if r else None
                 if name in ("array", "Matrix"):
@@ -367,6 +397,70 @@ def static_k(rep):
         raise AnalysisError(f"static-K: only {n} modules analysed")
 
 
+FLRW_FACTS = {
+    # module -> (functions treated as opaque functions of t, their declared derivatives)
+    "LCDM": {"a": "a", "Hprop": "H"},
+}
+
+
+def k_from_metric(rep):
+    """K_ij = -(1/(2 alpha)) d_t gamma_ij for zero shift, decided on normal forms after
+    syntactic differentiation.  For LambdaCDM the relation d_t a = a H between its two
+    separately written closed forms is a declared fact (a hyperbolic identity, not decided)."""
+    S = rep.sources
+    n = 0
+    for rel in S.all_py():
+        if not rel.startswith(SOL + "/") or rel.endswith("__init__.py"):
+            continue
+        modname = rel.split("/")[1][:-3]
+        fns = {x.name: x for x in S.module(rel).body if isinstance(x, ast.FunctionDef)}
+        if "gammadown3" not in fns or "Kdown3" not in fns:
+            continue
+        if [a.arg for a in fns["Kdown3"].args.args][:4] != ["t", "x", "y", "z"]:
+            continue
+        if "betaup3" in fns and "np.zeros" not in unparse(fns["betaup3"]):
+            rep.unverified("K-from-metric", f"{rel}::Kdown3", "non-zero shift")
+            continue
+        ev = SolEval(S, rel, False)
+        facts = {}
+        a_at, H_at = P.atom("fn:a(t)"), P.atom("fn:Hprop(t)")
+        if modname == "LCDM":
+            ev.overrides = {"a": a_at, "Hprop": H_at}
+            facts = {"fn:a(t)": a_at * H_at}
+        if modname == "Szekeres":
+            Z, dtZ, F = P.atom("fn:Z"), P.atom("fn:dtZ"), P.atom("fn:F")
+            ev.overrides = {"Z_terms": [F, Z, dtZ], "LCDM.a": a_at, "LCDM.Hprop": H_at}
+            facts = {"fn:a(t)": a_at * H_at, "fn:Z": dtZ}
+        args = [P.atom(p) for p in ("t", "x", "y", "z")]
+        key = f"{rel}::Kdown3"
+        try:
+            g = ev.call("gammadown3", args, {})[1]
+            K = ev.call("Kdown3", args, {})[1]
+            al = ev.call("alpha", args, {})[1] if "alpha" in fns else P.const(1)
+            bad = []
+            entries = 0
+            for (ka, gv), (kb, kv) in zip(flatten(g), flatten(K)):
+                entries += 1
+                want = symdiff.diff(asP(gv), "t", facts) * asP(al).pow(-1) * Fraction(-1, 2)
+                if asP(kv) != want:
+                    bad.append((ka, asP(kv), want))
+        except (Unsup, symdiff.CannotDifferentiate) as e:
+            rep.unverified("K-from-metric", key, f"not decided: {e}")
+            continue
+        n += 1
+        detail = ""
+        if bad:
+            ka, kv, want = bad[0]
+            detail = (f"K{list(ka)} is {kv!r}, -(1/2 alpha) d_t gamma{list(ka)} is "
+                      f"{want!r}")[:400]
+        rep.check(not bad, "K-from-metric", key,
+                  f"{len(bad)} component(s) of Kdown3 are not -(1/(2 alpha)) d_t gamma_ij of "
+                  f"the module's own spatial metric: {detail}", node=fns["Kdown3"], file=rel,
+                  detail={"entries": entries, "declared_facts": sorted(facts)})
+    if n < 5:
+        raise AnalysisError(f"K-from-metric: only {n} modules decided")
+
+
 def run(rep):
     rep.explanation = (
         "Clause 1 of C17 (the numerical and the symbolic form of each bundled metric agree) is "
@@ -380,5 +474,6 @@ def run(rep):
     two_forms(rep)
     component_axes(rep)
     static_k(rep)
+    k_from_metric(rep)
     rep.floor("two-forms-agree", 12)
     rep.floor("component-axes", 12)
